@@ -123,7 +123,7 @@ package stateless
 //@ spec func ipfsLacks(ips api.IPFSPinStatus) bool = ips == api.IPFSPinStatusIndirect || ips == api.IPFSPinStatusUnpinned
 
 //@ func (spt *Tracker) Status
-//@   property C06
+//@   property C06 C05
 //@   requires tableInv(spt.optracker)
 // "pinned exactly when IPFS holds the EXPECTED pin": the daemon is asked about the pin recorded in the pinset (its mode
 // and depth decide which kind of IPFS pin counts), not about a default pin of the same CID
